@@ -184,6 +184,36 @@ Proof.
   apply Z.ltb_lt in E. rewrite E.
   replace (t + (W - (t - prev)) + e) with (prev + W + e) by lia. reflexivity.
 Qed.
+
+(* when sleep is called in a reachable state, the N most recent requests all started less than one window ago:
+   starting at once would put N + 1 starts into one window, i.e. the window is not free *)
+Theorem sleep_means_window_full cs c : Forall call_ok cs -> call_ok c ->
+  let s := run N W cs in let t := now s + gap c in
+  snd (wait (dq s) t (eps c)) <> 0 ->
+  (N <= length (filter (fun x => (t - W <? x)%Z) (firstn N (hist s))))%nat /\ length (firstn N (hist s)) = N.
+Proof.
+  intros Hcs Hc s t Hsl.
+  destruct (run_Inv cs Hcs) as (Hdq & Hnow & Hsp & Hde). fold s in Hdq, Hnow, Hsp, Hde.
+  destruct (no_needless_sleep _ _ _ Hsl) as (Hfull & prev & rest & Ed & Hel).
+  rewrite Hdq, rev_length in Hfull.
+  assert (Hlen: length (firstn N (hist s)) = N) by (rewrite firstn_length in *; lia).
+  split; [|exact Hlen].
+  destruct (firstn_rev_cons_full (hist s) 0 Hfull) as (p2 & r2 & E2 & Hprev & _).
+  rewrite <- Hdq, Ed in E2. inversion E2; subst p2 r2.
+  (* every element of firstn N hist is >= prev > t - W *)
+  assert (All: forall x, In x (firstn N (hist s)) -> (t - W <? x) = true).
+  { intros x Hx. apply Z.ltb_lt.
+    apply In_nth_error in Hx. destruct Hx as (k & Hk).
+    assert (k < N)%nat by (rewrite <- Hlen; apply nth_error_Some; congruence).
+    assert (Hk': nth_error (hist s) k = Some x).
+    { rewrite <- (firstn_skipn N (hist s)). rewrite nth_error_app1 by lia. exact Hk. }
+    assert (prev <= x) by (apply (Hde k (N - 1)%nat x prev); [lia|exact Hk'|exact Hprev]).
+    lia. }
+  assert (F: filter (fun x => (t - W <? x)%Z) (firstn N (hist s)) = firstn N (hist s)).
+  { clear -All. induction (firstn N (hist s)) as [|a l IH]; simpl; [reflexivity|].
+    rewrite (All a (or_introl eq_refl)). f_equal. apply IH. intros x Hx. apply All. right. exact Hx. }
+  rewrite F. lia.
+Qed.
 End Rate.
 
 (* the shipped constants satisfy the side conditions *)
@@ -324,3 +354,10 @@ Proof. intros H. apply window_limit; first [apply limit_pos | apply window_nonne
 Theorem shipped_no_needless_sleep api d t e : snd (wait (limit api) window d t e) <> 0 ->
   (limit api <= length d)%nat /\ exists prev rest, d = prev :: rest /\ t - prev < window.
 Proof. apply no_needless_sleep. Qed.
+
+Theorem shipped_sleep_means_window_full api cs c : Forall call_ok cs -> call_ok c ->
+  let s := run (limit api) window cs in let t := now s + gap c in
+  snd (wait (limit api) window (dq s) t (eps c)) <> 0 ->
+  (limit api <= length (filter (fun x => (t - window <? x)%Z) (firstn (limit api) (hist s))))%nat
+  /\ length (firstn (limit api) (hist s)) = limit api.
+Proof. intros H1 H2. apply sleep_means_window_full; first [apply limit_pos | apply window_nonneg | assumption]. Qed.
